@@ -8,8 +8,9 @@ package extractsev
 //@   ensures[C16] result == "ovmf_x64_csm" || result == "unknown"
 //@   ensures[C16] result == sevPrefix(familyID)
 
+// (C09: a pure function of its arguments - it keeps no state between calls)
 //@ func GCETcbObjectName
-//@   assigns nothing
+//@   assigns[C09,C16] nothing
 //@   ensures[C16] result == sevObjectName(sevPrefix(familyID), val(measurement))
 //@   ensures[C16] sevPrefix(familyID) == "ovmf_x64_csm" || sevPrefix(familyID) == "unknown"
 
